@@ -76,7 +76,7 @@ var props = map[string]*propInfo{
 		Rule:    sprintf(ruleA, "a snapshot twin was made and at least one later step was mirrored on it"),
 		Oracles: []string{"C10.twin-bisimilar (state, return values, emitted operations)", "C10.reexport-equivalent", "C10.export / C10.import do not fail"}},
 	"C15": {Engine: "A", Level: "exploration", QuickS: 45, ThoroughS: 600,
-		Rule:    sprintf(ruleA, "a replica applied foreign operations while somebody held unseen operations (batches up to 30 elements, failing calls, rollbacks)"),
+		Rule:    sprintf(ruleA, "a replica applied foreign operations while somebody held unseen operations (batches up to 30 elements, failing calls, rollbacks; one plan in 600 is a wide-batch plan: a List on which one InsertMany creates 2^16+1..40 (a quarter: 2^15+1..40) elements, followed by 3-10 calls, pushes and deliveries of that and a second replica that address the far end of the batch, judged by the identity, reference and no-panic oracles)"),
 		Oracles: []string{"C15.seq-gapless", "C15.after-everything-seen", "C15.total-order-on-run", "C15.identity-key-injective"}},
 	"C19": {Engine: "A", Level: "exploration", QuickS: 45, ThoroughS: 600,
 		Rule:    sprintf(ruleA, "at least one PatchByJSON produced a non-empty patch"),
